@@ -119,7 +119,7 @@ dimension is negative, the tensor's shape is the initializer's `dims`, the ideal
 dims equals the number of elements built from the data source, that number fits `isize`, those
 elements are present in the data source, and (C06) every valid index is in bounds. -/
 theorem c05_T2_onnx (ovf : Bool) (c : OnnxInit) (hi : ∀ d ∈ c.dims, d < 2 ^ 63)
-    {shape : List Nat} {len : Nat} (h : loadConstant ovf c = .ok shape len) :
+    (hx : ExtFits c.ext) {shape : List Nat} {len : Nat} (h : loadConstant ovf c = .ok shape len) :
     (∀ d ∈ c.dims, 0 ≤ d) ∧ shape = c.dims.map Int.toNat ∧ WellFormed shape len ∧
     Backed c len ∧
     ∀ idx, ValidIdx (contigDims shape) idx → offset (contigDims shape) idx < len := by
@@ -131,29 +131,33 @@ theorem c05_T2_onnx (ovf : Bool) (c : OnnxInit) (hi : ∀ d ∈ c.dims, d < 2 ^ 
     split at h
     · cases h
     · next ext hext =>
-      have hv : ∀ d, ext = some d → d.Valid := fun d hd => (loadExt_valid (hd ▸ hext)).1
+      have hv : ∀ d, ext = some d → d.Valid := fun d hd => (loadExt_valid hx (hd ▸ hext)).1
+      rw [extAddPanics_false hx hext] at h
+      simp only [Bool.false_eq_true, if_false] at h
       obtain ⟨k, hk, e1, e2, wf⟩ := finish_ok h
       refine ⟨hnn, by rw [e1, hsm], wf, ⟨ext, hext, hv, ?_⟩, fun idx hv' => wf.in_bounds hv'⟩
       rw [e2]
       exact (onnxCount_spec c ext hv).2 k hk
 
-/-- External data of an accepted initializer lies inside the registered buffer, at the offset
-the model file names, and is no longer than the length it names (link to C21's `memRange`). -/
-theorem c05_T2_onnx_external (c : OnnxInit) {len : Nat} (hb : Backed c len)
-    {l o b : U} (hraw : c.raw = none) (he : c.ext = .ref l o b) :
+/-- External data of an accepted initializer — whichever loader resolved it (`MemLoader`,
+`MmapLoader`, `FileLoader`) — lies inside the external file / registered buffer at the offset
+the model file names, and is no longer than the length it names (C21). -/
+theorem c05_T2_onnx_external (c : OnnxInit) (hx : ExtFits c.ext) {len : Nat} (hb : Backed c len)
+    {k : LoaderKind} {l o b : U} (hraw : c.raw = none) (he : c.ext = .ref k l o b) :
     o.toNat + len * srcElemSize c.dtype ≤ b.toNat ∧ len * srcElemSize c.dtype ≤ l.toNat := by
   obtain ⟨ext, hext, hv, hc⟩ := hb
-  rw [he] at hext
   cases ext with
   | none =>
-    simp only [loadExt] at hext
-    split at hext <;> cases hext
+    rw [he] at hext
+    cases k <;> simp only [loadExt] at hext <;> split at hext <;> cases hext
   | some d =>
-    obtain ⟨_, l', o', b', heq, hs, hbl, hlen⟩ := loadExt_valid hext
+    obtain ⟨hval, k', l', o', b', heq, hlen, hin, _⟩ := loadExt_valid hx hext
+    rw [he] at heq
     cases heq
     unfold CntBacked at hc
     rw [hraw] at hc
     simp only at hc
+    have := hval.le
     omega
 
 /-- C21's own soundness theorem applies to the range the model uses. -/
@@ -165,7 +169,9 @@ example (off len flen s e : Nat) (hf : flen < ExtData.U64_MAX)
 int64 initializer read from external data (32 bytes at offset 8 of a 48-byte buffer). -/
 example : loadConstant false ⟨[2, 3], .float, some 24, .none, ⟨0, 0, 0, 0⟩⟩ = .ok [2, 3] 6 := by
   decide
-example : loadConstant true ⟨[4], .int64, none, .ref 32 8 48, ⟨0, 0, 0, 0⟩⟩ = .ok [4] 4 := by decide
+example : loadConstant true ⟨[4], .int64, none, .ref .mem 32 8 48, ⟨0, 0, 0, 0⟩⟩ = .ok [4] 4 ∧
+    loadConstant true ⟨[4], .int64, none, .ref .mmap 32 8 48, ⟨0, 0, 0, 0⟩⟩ = .ok [4] 4 ∧
+    loadConstant false ⟨[4], .int64, none, .ref .file 32 8 48, ⟨0, 0, 0, 0⟩⟩ = .ok [4] 4 := by decide
 
 /-- Where the bytes of an accepted `.rten` constant live. -/
 def RBacked (f : RtenFile) (c : RtenConst) (len : Nat) : Prop :=
@@ -287,25 +293,40 @@ input reaches one of them. -/
 /-- **C05.T3 (ONNX)** `load_constant` never panics, whatever the initializer says and in either
 build mode: `DataSlice::data()`, both `ArcSlice` unwraps, `spare_capacity[..n]` and the
 arithmetic inside `try_from_data` are all unreachable-panic sites. -/
-theorem c05_T3_onnx_no_panic (ovf : Bool) (c : OnnxInit) : loadConstant ovf c ≠ .panic := by
+theorem c05_T3_onnx_no_panic (ovf : Bool) (c : OnnxInit) (hx : ExtFits c.ext) :
+    loadConstant ovf c ≠ .panic := by
   unfold loadConstant
   split
   · simp
   · split
     · simp
     · next ext hext =>
-      have hv : ∀ d, ext = some d → d.Valid := fun d hd => (loadExt_valid (hd ▸ hext)).1
+      have hv : ∀ d, ext = some d → d.Valid := fun d hd => (loadExt_valid hx (hd ▸ hext)).1
+      rw [extAddPanics_false hx hext]
+      simp only [Bool.false_eq_true, if_false]
       exact finish_ne_panic (onnxCount_spec c _ hv).1
 
+/-- The panic guards are live: a `DataSlice` whose range is not inside its storage makes
+`DataSlice::data()` panic, and `MmapLoader` on a (physically impossible) file of `u64::MAX` bytes
+— the case `ExtFits` excludes — wraps its range end and panics the same way; with overflow
+checks the unchecked `offset + length` itself panics. -/
+example : makeCount 4 none (some ⟨8, 4, 16⟩) 0 = .panic ∧
+    loadConstant false ⟨[1], .uint8, none,
+      .ref .mmap 18446744073709551615 1 18446744073709551615, ⟨0, 0, 0, 0⟩⟩ = .panic ∧
+    loadConstant true ⟨[1], .uint8, none,
+      .ref .mmap 18446744073709551615 1 18446744073709551615, ⟨0, 0, 0, 0⟩⟩ = .panic := by decide
+
 /-- `load_constant` answers the same in release and overflow-checking builds. -/
-theorem c05_onnx_mode_independent (ovf : Bool) (c : OnnxInit) :
+theorem c05_onnx_mode_independent (ovf : Bool) (c : OnnxInit) (hx : ExtFits c.ext) :
     loadConstant ovf c = loadConstant false c := by
   unfold loadConstant
   split
   · rfl
   · split
     · rfl
-    · exact finish_mode _ _ _
+    · next ext hext =>
+      rw [extAddPanics_false hx hext, extAddPanics_false hx hext]
+      exact finish_mode _ _ _
 
 /-- The flatbuffers verifier's guarantee the inline path relies on: the vector's bytes lie inside
 the file buffer.  (Stored constants need no assumption.) -/
@@ -502,19 +523,22 @@ theorem loadConstant_ok_wf {ovf : Bool} {c : OnnxInit} {s : List Nat} {n : Nat}
   · cases h
   · split at h
     · cases h
-    · obtain ⟨k, _, _, _, wf⟩ := finish_ok h
-      exact wf
+    · split at h
+      · cases h
+      · obtain ⟨k, _, _, _, wf⟩ := finish_ok h
+        exact wf
 
 /-- The element counts of the `Constant` node's list attributes are lengths of `Vec`s. -/
 def AttrLensFit : ConstAttr → Prop
   | .valueInts n | .valueFloats n => n.toNat ≤ isizeMax
+  | .value t => ExtFits t.ext
   | _ => True
 
 theorem constAttr_spec (ovf : Bool) (a : ConstAttr) (ha : AttrLensFit a) :
     constAttr ovf a ≠ .panic ∧ ∀ s n, constAttr ovf a = .ok s n → WellFormed s n := by
   cases a with
   | value t =>
-    exact ⟨c05_T3_onnx_no_panic ovf t, fun s n h => loadConstant_ok_wf (by simpa [constAttr] using h)⟩
+    exact ⟨c05_T3_onnx_no_panic ovf t ha, fun s n h => loadConstant_ok_wf (by simpa [constAttr] using h)⟩
   | valueInt =>
     simp only [constAttr, fromDataG_scalar]
     exact ⟨by simp, fun s n h => by cases h; exact wf_scalar⟩
@@ -602,7 +626,7 @@ example : constOp false 1 [.valueInts 3] = .ok [3] 3 ∧ constOp true 1 [.valueF
   decide
 
 def ItemFits : OnnxItem → Prop
-  | .init t => ∀ d ∈ t.dims, d < 2 ^ 63
+  | .init t => (∀ d ∈ t.dims, d < 2 ^ 63) ∧ ExtFits t.ext
   | .constNode _ attrs => ∀ a ∈ attrs, AttrLensFit a
   | .attrInput n => ∀ k, n = some k → k.toNat ≤ isizeMax
 
@@ -610,7 +634,7 @@ theorem buildItem_spec (ovf : Bool) (it : OnnxItem) (hf : ItemFits it) :
     buildItem ovf it ≠ .panic ∧ ∀ s n, buildItem ovf it = .ok s n → WellFormed s n := by
   cases it with
   | init t =>
-    exact ⟨c05_T3_onnx_no_panic ovf t, fun s n h => (c05_T2_onnx ovf t hf h).2.2.1⟩
+    exact ⟨c05_T3_onnx_no_panic ovf t hf.2, fun s n h => (c05_T2_onnx ovf t hf.1 hf.2 h).2.2.1⟩
   | constNode o attrs => exact c05_constop ovf o attrs hf
   | attrInput k =>
     obtain ⟨h1, h2⟩ := c05_attr_constant ovf k hf
